@@ -1963,6 +1963,71 @@ func ruleTL1() Rule {
 					}
 				}
 			}
+			// a scanner other than the raw one that delivers a token itself (the `))` found by
+			// the arithmetic expression scanner) records the line too
+			if gi := c.grammar("parser"); gi.Err == nil {
+				raw := c.fn("parser.(*lexer).scanRawToken")
+				for _, f := range c.funcsOfPkg("parser", false) {
+					if f.Decl == nil || f == raw || f.Type.Results == nil || len(f.Type.Results.List) != 1 {
+						continue
+					}
+					// only scanners that read for themselves; helpers of the raw scanner are covered by it
+					info := f.Info()
+					readFn := c.fn("parser.(*lexer).read")
+					if len(c.callsTo(f, readFn)) == 0 {
+						continue
+					}
+					// only scanners a lexer state function calls directly: what they return is what
+					// the state machine takes for the last token
+					fromState := false
+					for _, g := range c.funcsOfPkg("parser", false) {
+						if g.Decl == nil || g.Type.Results == nil || len(g.Type.Results.List) != 1 || exprStr(g.Type.Results.List[0].Type) != "action" {
+							continue
+						}
+						if len(c.callsTo(g, f)) > 0 {
+							fromState = true
+						}
+					}
+					if !fromState {
+						continue
+					}
+					recorded := core.NewFlow(f).MustSeen(false, func(n ast.Node) bool {
+						as, ok := n.(*ast.AssignStmt)
+						if !ok {
+							return false
+						}
+						for _, l := range as.Lhs {
+							if core.FieldOf(info, l) == x {
+								return true
+							}
+						}
+						return false
+					}, nil)
+					f.OwnNodes(func(nd ast.Node) bool {
+						r, ok := nd.(*ast.ReturnStmt)
+						if !ok || len(r.Results) != 1 {
+							return true
+						}
+						id, ok := ast.Unparen(r.Results[0]).(*ast.Ident)
+						if !ok {
+							return true
+						}
+						if _, isTok := gi.G.Tokens[id.Name]; !isTok {
+							return true
+						}
+						if _, isConst := info.Uses[id].(*types.Const); !isConst {
+							return true
+						}
+						key := fmt.Sprintf("%s|delivers %s", f.Name, id.Name)
+						if recorded[r] {
+							rr.OK(f, key, r.Pos(), "recorded", "the line is recorded before the token is delivered")
+						} else {
+							rr.Bad(f, key, r.Pos(), fmt.Sprintf("a scanner other than the raw one delivers the token %s without recording its line in %s: a comment behind it (`((1 +` newline `2)) # c`) is taken for one on a line of its own and swallows the newline", id.Name, x.Name()))
+						}
+						return true
+					})
+				}
+			}
 			// the continuation between tokens
 			if q := c.mustFn(rr, "parser.(*lexer).scanQuote"); q != nil {
 				info := q.Info()
@@ -2291,6 +2356,152 @@ func ruleESC3() Rule {
 					at = o[0].Pos()
 				}
 				rr.Bad(esc, key, at, "the escape helper reads the input itself: the character behind the backslash is no longer the only one it decides on")
+			}
+		}}
+}
+
+// ---------------------------------------------------------------------------
+// SIB1: the word scanners agree on what starts an expansion.
+
+func ruleSIB1() Rule {
+	return Rule{ID: "SIB1", Kind: "agreement", Floor: 4,
+		Doc: "the lexer scans words in several places (a bare word, inside double-quotes, a here-document body, an arithmetic expression, the word of ${parameter:-word}); each is a switch over the character read. Every such switch that hands `$` to the parameter/command expansion scanner also hands a back-quote to the command substitution scanner: the two start an expansion in exactly the same contexts (XCU 2.6), so a scanner that knows one and not the other treats a back-quoted substitution as text (and ends the construct at a `}` inside it)",
+		Run: func(c *Ctx, rr *core.RuleResult) {
+			pexp := c.mustFn(rr, "parser.(*lexer).scanParamExp")
+			csub := c.mustFn(rr, "parser.(*lexer).scanCmdSubst")
+			if pexp == nil || csub == nil {
+				return
+			}
+			for _, f := range c.funcsOfPkg("parser", false) {
+				if f.Decl == nil {
+					continue
+				}
+				info := f.Info()
+				n := 0
+				for _, sw := range switches(c.P, f) {
+					d := sw.clauseFor('$')
+					if d == nil || len(d.runes) != 1 {
+						continue
+					}
+					calls := func(cl *swClause, g *core.Func) bool {
+						found := false
+						for _, st := range cl.cc.Body {
+							ast.Inspect(st, func(x ast.Node) bool {
+								if call, ok := x.(*ast.CallExpr); ok {
+									if fo := core.StaticCallee(info, call); fo != nil && c.effective(c.P.FuncOf(fo)) == c.effective(g) {
+										found = true
+									}
+								}
+								return !found
+							})
+						}
+						return found
+					}
+					if !calls(d, pexp) {
+						continue
+					}
+					n++
+					key := fmt.Sprintf("%s|switch #%d with `$`", f.Name, n)
+					bq := sw.clauseFor('`')
+					switch {
+					case bq != nil && calls(bq, csub):
+						rr.OK(f, key, d.cc.Pos(), "both", "`$` and the back-quote both start an expansion here")
+					case bq != nil:
+						rr.Bad(f, key, bq.cc.Pos(), "the back-quote has a case here but is not handed to the command substitution scanner")
+					default:
+						rr.Bad(f, key, d.cc.Pos(), "this scanner hands `$` to the expansion scanner but has no case for the back-quote: a back-quoted command substitution in this context is kept as text, and a `}` or `)` inside it ends the surrounding construct")
+					}
+				}
+			}
+		}}
+}
+
+// ---------------------------------------------------------------------------
+// LB3 / CM5: linebreak and the backslash; the position after a comment.
+
+func ruleLB3() Rule {
+	return Rule{ID: "LB3", Kind: "must", Floor: 2,
+		Doc: "linebreak(): (LB3) a backslash met while skipping newlines is handed to the quote scanner - a backslash-newline is a line continuation, which is not the end of the linebreak (`a && \\` newline, empty line, `b`), anything else begins the next word; (CM5) wherever a comment is flushed and linebreak then returns to let the scanner go on, the position is marked behind the comment first, so that the token which ends the comment (the closing back-quote of a substitution) is not recorded at the position of the `#`",
+		Run: func(c *Ctx, rr *core.RuleResult) {
+			f := c.mustFn(rr, "parser.(*lexer).linebreak")
+			quote := c.fn("parser.(*lexer).scanQuote")
+			comment := c.fn("parser.(*lexer).comment")
+			markFn := c.fn("parser.(*lexer).mark")
+			if f == nil || quote == nil || comment == nil || markFn == nil {
+				return
+			}
+			info := f.Info()
+			isCallOf := func(g *core.Func) func(ast.Node) bool {
+				return func(n ast.Node) bool {
+					call, ok := n.(*ast.CallExpr)
+					if !ok {
+						return false
+					}
+					fo := core.StaticCallee(info, call)
+					return fo != nil && c.P.FuncOf(fo) == g
+				}
+			}
+			// LB3
+			key := f.Name + "|backslash while skipping newlines"
+			handed := false
+			c.regionNodes(f, func(g *core.Func, n ast.Node) bool {
+				call, ok := n.(*ast.CallExpr)
+				if !ok {
+					return true
+				}
+				gi := g.Info()
+				if fo := core.StaticCallee(gi, call); fo == nil || c.P.FuncOf(fo) != quote {
+					return true
+				}
+				for _, gd := range guardsOf(c.P, call, nil) {
+					if be, ok := ast.Unparen(gd.cond).(*ast.BinaryExpr); ok && gd.pos && be.Op == token.EQL {
+						if v, isC := constInt(gi, be.Y); isC && v == '\\' {
+							handed = true
+						}
+					}
+				}
+				for p := c.P.Parent(call); p != nil; p = c.P.Parent(p) {
+					if cc, ok := p.(*ast.CaseClause); ok {
+						for _, e := range cc.List {
+							if v, isC := constInt(gi, e); isC && v == '\\' {
+								handed = true
+							}
+						}
+					}
+				}
+				return true
+			})
+			if handed {
+				rr.OK(f, key, f.Pos(), "quote-scanner", "a backslash is handed to the quote scanner, which drops a line continuation")
+			} else {
+				rr.Bad(f, key, f.Pos(), "linebreak pushes a backslash back and reports the end of the linebreak: after a line continuation the newlines that follow are delivered as tokens where the grammar has had its linebreak already (`a && \\` newline, empty line, `b` is rejected)")
+			}
+			// CM5
+			marked := core.NewFlow(f).MustSeen(true, isCallOf(markFn), isCallOf(comment))
+			bad := token.NoPos
+			nret := 0
+			f.OwnNodes(func(n ast.Node) bool {
+				r, ok := n.(*ast.ReturnStmt)
+				if !ok || len(r.Results) != 1 {
+					return true
+				}
+				if tv, has := info.Types[r.Results[0]]; !has || tv.Value == nil || tv.Value.String() != "true" {
+					return true
+				}
+				nret++
+				if !marked[r] {
+					bad = r.Pos()
+				}
+				return true
+			})
+			key = f.Name + "|position marked behind a flushed comment"
+			switch {
+			case nret == 0:
+				rr.Unk(f, key, f.Pos(), "linebreak has no `return true`")
+			case bad == token.NoPos:
+				rr.OK(f, key, f.Pos(), "marked", fmt.Sprintf("each of the %d successful returns is reached with mark() called after the last comment()", nret))
+			default:
+				rr.Bad(f, key, bad, "linebreak flushes a comment and returns without mark(): the next token (the closing back-quote that ends the comment) is recorded at the position of the `#`, so the node that ends there is too short")
 			}
 		}}
 }
